@@ -31,6 +31,9 @@ type C14Case struct {
 	Exp int64  `json:"exp,omitempty"`
 	P   uint   `json:"p"`
 	M   uint8  `json:"m"`
+	// Stale > 0: the receiver held an all-nines value of that many words before (its buffer is reused, every word of it
+	// non-zero), then was emptied with SetPrec(0)
+	Stale int `json:"stale,omitempty"`
 }
 
 var c14Anchors = []string{
@@ -89,6 +92,21 @@ func genC14(t *rapid.T) C14Case {
 		}
 	case "setint":
 		c.I = genBigIntString(t, "i", 3000)
+		if rapid.Bool().Draw(t, "stale") {
+			c.Stale = rapid.IntRange(1, 200).Draw(t, "stalewords")
+		}
+		if h.Rare(t, "roundint", 6) {
+			// multiples of large powers of ten: long runs of zero words at the low end of the converted integer
+			k := rapid.IntRange(1, 2600).Draw(t, "zeros")
+			c.I = h.GenDigitsN(t, "head", rapid.IntRange(1, 40).Draw(t, "headn")) + strings.Repeat("0", k)
+			c.I = strings.TrimLeft(c.I, "0")
+			if c.I == "" {
+				c.I = "0"
+			}
+			if rapid.Bool().Draw(t, "rneg") && c.I != "0" {
+				c.I = "-" + c.I
+			}
+		}
 		if rapid.IntRange(0, 2).Draw(t, "anch") == 0 {
 			a := bigOf(rapid.SampledFrom(c14Anchors).Draw(t, "anchor"))
 			a.Add(a, big.NewInt(int64(rapid.IntRange(-2, 2).Draw(t, "delta"))))
@@ -202,7 +220,21 @@ func checkC14(c C14Case, o *h.Obs) *h.Fail {
 	if c.Op == "rat-probe" {
 		return c14RatProbe(c, o)
 	}
+	if c.Op == "setint-probe" {
+		return c14SetIntProbe(c, o)
+	}
 	z := mkRecv(c.P, c.M)
+	if c.Stale > 0 {
+		w := make([]decimal.Word, c.Stale)
+		for i := range w {
+			w[i] = decimal.Word(h.Base - 1)
+		}
+		z = new(decimal.Decimal).SetPrec(uint(19 * c.Stale))
+		z.SetBitsExp(w, 0)
+		z.Neg(z)
+		z.SetPrec(0).SetMode(decimal.RoundingMode(c.M)).SetPrec(c.P)
+		o.Label("receiver-with-stale-buffer")
+	}
 	var exact model.X
 	wantPrec := []uint{c.P}
 	digitsOf := func(i *big.Int) uint {
@@ -364,6 +396,12 @@ func TestC14RatChild(t *testing.T) {
 	if enc == "" {
 		t.Skip("only run as a child of the rat-probe case")
 	}
+	if enc == "setint:2^(2^32-1)" {
+		v := new(big.Int).Lsh(big.NewInt(1), 1<<32-1)
+		z := new(decimal.Decimal).SetPrec(40).SetMode(decimal.ToZero).SetInt(v)
+		fmt.Printf("SETINT-RETURNED zero=%v exp=%d acc=%v\n", z.IsZero(), z.MantExp(nil), z.Acc())
+		return
+	}
 	var sp h.Spec
 	if err := json.Unmarshal([]byte(enc), &sp); err != nil {
 		t.Fatal(err)
@@ -371,6 +409,43 @@ func TestC14RatChild(t *testing.T) {
 	x := sp.Build()
 	r, acc := x.Rat(nil)
 	fmt.Println("RAT-RETURNED", r != nil, acc)
+}
+
+// c14SetIntProbe: SetInt of 2^(2^32-1), an integer of 2^32 bits and 1292913987 digits, at precision 40. The conversion
+// is quadratic in the integer's length and finishes on no machine, so it runs in a child process that is killed after a
+// few seconds, like c14RatProbe: an answer within that time is checked (a zero is wrong, so is any exponent but
+// 1292913987), a child that is still computing says nothing.
+func c14SetIntProbe(c C14Case, o *h.Obs) *h.Fail {
+	cmd := exec.Command(os.Args[0], "-test.run=^TestC14RatChild$", "-test.timeout=120s")
+	cmd.Env = append(os.Environ(), "VERIF_C14_RAT_CASE=setint:2^(2^32-1)")
+	var out bytes.Buffer
+	cmd.Stdout, cmd.Stderr = &out, &out
+	if err := cmd.Start(); err != nil {
+		return h.Failf("bad-case", "cannot start the child process: %v", err)
+	}
+	done := make(chan error, 1)
+	go func() { done <- cmd.Wait() }()
+	select {
+	case <-done:
+	case <-time.After(12 * time.Second):
+		cmd.Process.Kill()
+		<-done
+		o.Label("setint-probe:still-computing-when-killed")
+		return nil
+	}
+	o.NonTrivial()
+	text := out.String()
+	if i := strings.Index(text, "SETINT-RETURNED"); i >= 0 {
+		line := strings.SplitN(text[i:], "\n", 2)[0]
+		if !strings.Contains(line, "zero=false exp=1292913987 ") {
+			return h.Failf("setint-huge", "SetInt(2^(2^32-1)) at precision 40 ToZero returned %q; the value is 0.15516...e1292913987", line)
+		}
+		return nil
+	}
+	if i := strings.Index(text, "panic:"); i >= 0 {
+		return h.Failf("setint-panic", "SetInt(2^(2^32-1)) %s", h.FirstN(strings.SplitN(text[i:], "\n", 2)[0], 200))
+	}
+	return h.Failf("bad-case", "child process: %s", h.FirstN(text, 300))
 }
 
 func checkC14Out(c C14Case, o *h.Obs) *h.Fail {
@@ -521,6 +596,10 @@ func TestC14Grid(t *testing.T) {
 				continue
 			}
 			run(C14Case{Op: "setint", I: v.String(), P: 0, M: 0})
+			if d%5 == 0 {
+				run(C14Case{Op: "setint", I: v.String(), P: 0, M: 0, Stale: d/19 + 7})
+				run(C14Case{Op: "setint", I: v.String(), P: uint(d/2 + 1), M: uint8(d % 6), Stale: d/19 + 7})
+			}
 			vv := model.FromInt(v, 0)
 			run(C14Case{Op: "out", X: h.SpecOf(vv, uint(len(vv.Digits)), 0)})
 		}
@@ -647,7 +726,10 @@ func c14GiantMantissaAccuracy() *h.Fail {
 	return nil
 }
 
-var propC14 = &h.Prop[C14Case]{ID: "C14", Rule: ruleC14, Gen: genC14, Check: checkC14, Matchers: map[string]func(C14Case) bool{"rat-exponent-span-beyond-int32": ratSpanBeyondInt32}}
+var propC14 = &h.Prop[C14Case]{ID: "C14", Rule: ruleC14, Gen: genC14, Check: checkC14, Matchers: map[string]func(C14Case) bool{"rat-exponent-span-beyond-int32": ratSpanBeyondInt32,
+	// known finding F-39: SetInt keeps the argument's bit length in a uint32 (integers are generated as decimal strings of a
+	// few thousand digits: the zone is only entered by the probe)
+	"setint-bitlen-beyond-uint32": func(c C14Case) bool { return c.Op == "setint-probe" }}}
 
 func TestC14(t *testing.T)       { propC14.Search(t) }
 func TestC14Replay(t *testing.T) { propC14.Replay(t) }
